@@ -19,7 +19,7 @@ from ..carriers import local_roles, role
 rule("C04.b", "every value written to the asset column by an asset class is self.name, and every variable frame built in an "
               "asset class is given the asset column", floor=10, props=["C04", "C16"])
 rule("C08.a", "time steps written to a mapping originate in the asset's restricted grid (or its minor steps, existing rows, the "
-              "split re-basing, or the constant 0 of a size row) - so every step index of a mapping lies on the grid", floor=10, props=["C08", "C07"])
+              "split re-basing, or the constant 0 of a size row) - so every step index of a mapping lies on the grid", floor=10, props=["C08", "C07", "C15"])
 rule("C05.f", "a frame of new variables flagged bool=True is internal (type 'i') and its bounds are [0, 1]", floor=5,
      props=["C05", "C06"])
 
